@@ -878,3 +878,168 @@ func handsMessageOn(fn *ssa.Function) bool {
 	}
 	return false
 }
+
+// ruleStatedEmitters: the helpers a stub generates to emit a signal or to
+// publish a property (UpdateSignal(id, bytes) / UpdateProperty(id, sig, bytes))
+// encode what the meta-object of the same type advertises under that id.
+func ruleStatedEmitters(c *core.Ctx, rule string) {
+	t := newSigTable(c)
+	tables := metaTables(c)
+	seen := map[string]bool{}
+	n := 0
+	for _, fn := range c.RepoFuncs() {
+		if fn.Parent() != nil || fn.Signature.Recv() == nil || c.IsTestFile(fn) || c.InWitness(fn.Pos()) {
+			continue
+		}
+		rt := fn.Signature.Recv().Type()
+		if p, ok := rt.(*types.Pointer); ok {
+			rt = p.Elem()
+		}
+		named, _ := rt.(*types.Named)
+		if named == nil || len(tables[named]) == 0 {
+			continue
+		}
+		for _, call := range core.Calls(fn) {
+			cc := call.Common()
+			if !cc.IsInvoke() {
+				continue
+			}
+			kind := map[string]string{"UpdateSignal": "signal", "UpdateProperty": "property"}[cc.Method.Name()]
+			if kind == "" || len(cc.Args) < 2 {
+				continue
+			}
+			id, ok := core.ConstInt(cc.Args[0])
+			if !ok {
+				continue
+			}
+			n++
+			key := fmt.Sprintf("%s/%s:%d", core.FuncKey(fn), kind, id)
+			var entry *metaEntry
+			for i := range tables[named] {
+				e := &tables[named][i]
+				if e.Kind == kind && e.ID == id {
+					entry = e
+				}
+			}
+			if entry == nil {
+				c.Fail(rule, key, call.Pos(), fmt.Sprintf("the %s emitted under id %d is not in the meta-object the same type advertises: no client can subscribe to it", kind, id))
+				continue
+			}
+			bad := ""
+			if kind == "property" && len(cc.Args) == 3 {
+				if s, ok := core.ConstString(cc.Args[1]); ok && s != entry.Sig {
+					bad = fmt.Sprintf("published with signature %q, advertised as %q", s, entry.Sig)
+				}
+			}
+			sn, err := t.parse(entry.Sig)
+			if err != nil {
+				c.Fail(rule, key, call.Pos(), fmt.Sprintf("advertised signature %q does not parse: %v", entry.Sig, err))
+				continue
+			}
+			abs := answerBuffers(fn)
+			if len(abs) != 1 {
+				c.Undecided(rule, key, call.Pos(), fmt.Sprintf("%d local buffers", len(abs)))
+				continue
+			}
+			wr, prob := shapeOf(c, fn, abs[0])
+			if prob != "" {
+				c.Undecided(rule, key, call.Pos(), "encode shape: "+prob)
+				continue
+			}
+			wr = flatten(wr)
+			if bad == "" {
+				k, d := t.shapeMatches(c, sn, wr, 0, "write", seen)
+				if d != "" {
+					bad = fmt.Sprintf("%s (encoded: %s)", d, shapeString(wr))
+				} else if k != len(wr) {
+					bad = fmt.Sprintf("the payload also carries %s, which %s does not mention", wr[k].String(), abbrev(entry.Sig))
+				}
+			}
+			c.Check(bad == "", rule, key, call.Pos(), fmt.Sprintf("%s %q is emitted as %s, as advertised", kind, entry.Name, abbrev(entry.Sig)),
+				"subscribers decode the payload by the advertised signature: "+bad)
+		}
+	}
+	_ = n
+}
+
+// ruleStatedSubscribers: a typed subscription resolves its signal or property
+// with MetaObject.SignalID / PropertyID(name, signature) and decodes each
+// payload in a function literal: what it decodes is that signature.
+func ruleStatedSubscribers(c *core.Ctx, rule string) {
+	t := newSigTable(c)
+	seen := map[string]bool{}
+	for _, fn := range c.RepoFuncs() {
+		if fn.Parent() != nil || c.IsTestFile(fn) || c.InWitness(fn.Pos()) {
+			continue
+		}
+		sig, name := "", ""
+		var pos token.Pos
+		for _, call := range core.Calls(fn) {
+			cc := call.Common()
+			f := cc.StaticCallee()
+			if f == nil || f.Signature.Recv() == nil || (f.Name() != "SignalID" && f.Name() != "PropertyID") {
+				continue
+			}
+			if !core.TypeIs(f.Signature.Recv().Type(), "type/object", "MetaObject") {
+				if p, ok := f.Signature.Recv().Type().(*types.Pointer); !ok || !core.TypeIs(p.Elem(), "type/object", "MetaObject") {
+					continue
+				}
+			}
+			if len(cc.Args) != 3 {
+				continue
+			}
+			if s, ok := core.ConstString(cc.Args[2]); ok {
+				sig, pos = s, call.Pos()
+				name, _ = core.ConstString(cc.Args[1])
+			}
+		}
+		if sig == "" {
+			continue
+		}
+		key := fmt.Sprintf("%s/subscribes:%s", core.FuncKey(fn), name)
+		sn, err := t.parse(sig)
+		if err != nil {
+			c.Fail(rule, key, pos, fmt.Sprintf("the stated signature %q does not parse: %v", sig, err))
+			continue
+		}
+		// the literal that decodes the payloads
+		var lit *ssa.Function
+		var rd ssa.Value
+		for _, g := range core.AnonFuncs(fn) {
+			if g == fn {
+				continue
+			}
+			if prs := payloadReaders(g); len(prs) == 1 {
+				if lit != nil {
+					lit = nil
+					break
+				}
+				lit, rd = g, prs[0]
+			}
+		}
+		if lit == nil {
+			c.Undecided(rule, key, pos, "no single function literal decoding the payloads found")
+			continue
+		}
+		toks, prob := shapeOf(c, lit, rd)
+		if prob != "" {
+			c.Undecided(rule, key, pos, "decode shape: "+prob)
+			continue
+		}
+		toks = flatten(toks)
+		// the decoding sits in the forwarding loop: one payload per iteration
+		for len(toks) == 1 && toks[0].Kind == "rep" {
+			toks = flatten(toks[0].Kids)
+		}
+		toks = answerArm(toks)
+		k, d := t.shapeMatches(c, sn, toks, 0, "read", seen)
+		bad := ""
+		if d != "" {
+			bad = fmt.Sprintf("%s (decoded: %s)", d, shapeString(toks))
+		} else if k != len(toks) {
+			bad = fmt.Sprintf("each payload is also decoded as %s, which %s does not mention", toks[k].String(), abbrev(sig))
+		}
+		c.Check(bad == "", rule, key, pos, fmt.Sprintf("payloads of %q are decoded as %s, the signature the subscription asks for", name, abbrev(sig)),
+			"the emitter encodes by the signature the subscription names: "+bad)
+	}
+}
